@@ -13,6 +13,8 @@ CONSTANTS
   MaxHolds = 0
   MaxNoops = 0
   WithSettle = FALSE
+  MaxErrs = 1
+  FaultsAt = "any"
   PauseAtomic = TRUE
   StartRollback = TRUE
   EntityGC = TRUE
@@ -21,3 +23,5 @@ CONSTANTS
   JoinedStopped = TRUE
   LateRegisterChecked = TRUE
   BarrierExits = TRUE
+  IntPauseAtomic = TRUE
+  GaugeDeleteFirst = TRUE
